@@ -9,14 +9,31 @@ Import ListNotations.
 
 Definition ws_trivia (ws : bytes) : trivia := map TrSp ws.
 
-(* leading-trivia form: white space accumulates in front of the next token *)
+(* a recorded comment, read back as trivia *)
+Definition tr_of (c : bytes) : trivia :=
+  match lex_trivia (S (List.length c)) c with Some (tr, []) => tr | _ => [] end.
+(* the comment text is a run of comments and white space that the lexer reads back as it is
+   written (what parseReservedComments records: comments joined by line feeds) *)
+Definition comment_ok (c : bytes) : bool :=
+  match lex_trivia (S (List.length c)) c with
+  | Some (tr, []) => beqb (trivia_bytes tr) c && trivia_ok true tr
+  | _ => false
+  end.
+(* the run ends with a line comment, which needs a line break after it *)
+Fixpoint ends_lc (tr : trivia) : bool :=
+  match tr with
+  | [] => false
+  | i :: r => match r with [] => is_line_comment i | _ => ends_lc r end
+  end.
+
+(* leading-trivia form: white space and comments accumulate in front of the next token *)
 Fixpoint group (pending : trivia) (ps : list piece) : list ltok * trivia :=
   match ps with
   | [] => ([], pending)
   | PT t :: r => let (l, fin) := group [] r in ((pending, t) :: l, fin)
   | PN text :: r => let (l, fin) := group [] r in ((pending, num_token text) :: l, fin)
   | PW ws :: r => group (pending ++ ws_trivia ws) r
-  | PC _ :: r => group pending r
+  | PC c :: r => group (pending ++ tr_of c) r
   end.
 
 Definition piece_wf (p : piece) : Prop :=
@@ -24,29 +41,70 @@ Definition piece_wf (p : piece) : Prop :=
   | PT t => token_wf t
   | PN text => token_wf (num_token text) /\ token_bytes (num_token text) = text
   | PW ws => forallb is_space ws = true
-  | PC _ => False
+  | PC c => comment_ok c = true
   end.
-
-Definition blank_trivia (tr : trivia) : Prop := Forall (fun i => match i with TrSp c => is_space c = true | _ => False end) tr.
 
 Lemma trivia_bytes_app a b : trivia_bytes (a ++ b) = trivia_bytes a ++ trivia_bytes b.
 Proof. unfold trivia_bytes. rewrite map_app, concat_app. reflexivity. Qed.
 Lemma trivia_bytes_ws ws : trivia_bytes (ws_trivia ws) = ws.
 Proof. induction ws as [|c r IH]; [reflexivity|]. cbn [ws_trivia map]. rewrite trivia_bytes_cons. cbn [tritem_bytes app]. fold (ws_trivia r). rewrite IH. reflexivity. Qed.
 
-Lemma blank_trivia_ok last tr : blank_trivia tr -> trivia_ok last tr = true.
+Lemma comment_ok_spec c : comment_ok c = true -> trivia_bytes (tr_of c) = c /\ trivia_ok true (tr_of c) = true.
 Proof.
-  induction 1 as [|i r Hi _ IH]; [reflexivity|].
-  destruct i; try contradiction. cbn [trivia_ok tritem_ok is_line_comment]. rewrite Hi, IH. reflexivity.
+  unfold comment_ok, tr_of. destruct (lex_trivia (S (List.length c)) c) as [[tr [|x r]]|]; try discriminate.
+  intro H. apply andb_true_iff in H. destruct H as [H1 H2]. apply beqb_true in H1. auto.
 Qed.
-Lemma blank_ws ws : forallb is_space ws = true -> blank_trivia (ws_trivia ws).
+Lemma tr_of_nonnil c : comment_ok c = true -> c <> [] -> tr_of c <> [].
+Proof. intros H Hc E. destruct (comment_ok_spec c H) as [Hb _]. rewrite E in Hb. cbn in Hb. congruence. Qed.
+
+(* ---- composing trivia runs *)
+Lemma ends_lc_cons i j r : ends_lc (i :: j :: r) = ends_lc (j :: r).
+Proof. reflexivity. Qed.
+Lemma ends_lc_app a b : b <> [] -> ends_lc (a ++ b) = ends_lc b.
 Proof.
-  induction ws as [|c r IH]; intro H; [constructor|].
+  intro Hb. induction a as [|i r IH]; [reflexivity|].
+  cbn [app]. destruct (r ++ b) as [|j t] eqn:E.
+  - destruct r; [cbn in E; congruence | discriminate].
+  - rewrite ends_lc_cons. exact IH.
+Qed.
+Lemma ends_lc_ws c ws : ends_lc (ws_trivia (c :: ws)) = false.
+Proof. revert c. induction ws as [|d r IH]; intro c; [reflexivity|]. cbn [ws_trivia map]. rewrite ends_lc_cons. apply IH. Qed.
+
+Lemma trivia_ok_ws last ws : forallb is_space ws = true -> trivia_ok last (ws_trivia ws) = true.
+Proof.
+  induction ws as [|c r IH]; intro H; [reflexivity|].
   cbn [forallb] in H. apply andb_true_iff in H. destruct H as [H1 H2].
-  constructor; [exact H1 | apply IH; exact H2].
+  cbn [ws_trivia map trivia_ok tritem_ok is_line_comment]. rewrite H1. cbn [andb]. apply IH. exact H2.
 Qed.
-Lemma blank_app a b : blank_trivia a -> blank_trivia b -> blank_trivia (a ++ b).
-Proof. intros Ha Hb. apply Forall_app. split; assumption. Qed.
+
+Lemma trivia_ok_cons last i r :
+  trivia_ok last (i :: r) =
+  tritem_ok i && (if is_line_comment i then match r with [] => last | j :: _ => tr_is_nl j end else true) && trivia_ok last r.
+Proof. reflexivity. Qed.
+
+Lemma trivia_ok_app last : forall a b,
+  trivia_ok true a = true -> trivia_ok last b = true ->
+  (ends_lc a = true -> match b with j :: _ => tr_is_nl j = true | [] => last = true end) ->
+  trivia_ok last (a ++ b) = true.
+Proof.
+  induction a as [|i r IH]; intros b Ha Hb Hl; [exact Hb|].
+  rewrite trivia_ok_cons in Ha. apply andb_true_iff in Ha. destruct Ha as [Ha Hr]. apply andb_true_iff in Ha. destruct Ha as [Hi Hc].
+  cbn [app]. rewrite trivia_ok_cons, Hi. cbn [andb].
+  destruct r as [|j t].
+  - cbn [app]. cbn [ends_lc] in Hl. rewrite Hb, andb_true_r.
+    destruct (is_line_comment i); [|reflexivity]. specialize (Hl eq_refl). destruct b; exact Hl.
+  - cbn [app]. rewrite Hc. cbn [andb]. apply IH; [exact Hr | exact Hb|].
+    rewrite ends_lc_cons in Hl. exact Hl.
+Qed.
+
+Lemma trivia_ok_closed : forall tr, trivia_ok true tr = true -> ends_lc tr = false -> trivia_ok false tr = true.
+Proof.
+  induction tr as [|i r IH]; intros H He; [reflexivity|].
+  rewrite trivia_ok_cons in H |- *. apply andb_true_iff in H. destruct H as [H Hr]. apply andb_true_iff in H. destruct H as [Hi Hc].
+  rewrite Hi. cbn [andb]. destruct r as [|j t].
+  - cbn [ends_lc] in He. rewrite He. reflexivity.
+  - rewrite Hc. cbn [andb]. apply IH; [exact Hr|]. rewrite ends_lc_cons in He. exact He.
+Qed.
 
 Lemma group_bytes ps : Forall piece_wf ps -> forall pending,
   ltoks_bytes (fst (group pending ps)) (snd (group pending ps)) = trivia_bytes pending ++ pieces_text ps.
@@ -60,10 +118,15 @@ Proof.
       rewrite ltoks_bytes_cons, IH. destruct Hp as [_ ->]. reflexivity.
     + rewrite IH, trivia_bytes_app, trivia_bytes_ws. unfold pieces_text. cbn [map List.concat piece_text].
       rewrite <- app_assoc. reflexivity.
-    + contradiction.
+    + rewrite IH, trivia_bytes_app. rewrite (proj1 (comment_ok_spec c Hp)).
+      unfold pieces_text. cbn [map List.concat piece_text]. rewrite <- app_assoc. reflexivity.
 Qed.
 
-(* ---- no two word-like tokens touch.  [prev]: the previous piece was a word-like token *)
+(* ---- no two word-like tokens touch, and a comment that ends with a line comment is followed
+   by a line break.  [prev]: the previous piece was a word-like token *)
+Definition starts_nl (ps : list piece) : bool :=
+  match ps with PW (d :: _) :: _ => is_nl d | _ => false end.
+
 Fixpoint sepb (prev : bool) (ps : list piece) : bool :=
   match ps with
   | [] => true
@@ -71,7 +134,9 @@ Fixpoint sepb (prev : bool) (ps : list piece) : bool :=
   | PN _ :: r => negb prev && sepb true r
   | PW [] :: r => sepb prev r
   | PW (_ :: _) :: r => sepb false r
-  | PC _ :: _ => false
+  | PC c :: r =>
+    (if ends_lc (tr_of c) then starts_nl r else true) &&
+    match c with [] => sepb prev r | _ :: _ => sepb false r end
   end.
 
 Lemma sepb_mono r : sepb true r = true -> sepb false r = true.
@@ -80,6 +145,8 @@ Proof.
   destruct p as [t|text|[|c ws]|c]; cbn [sepb andb negb]; auto.
   - intro H. apply andb_true_iff in H. destruct H as [_ H]. exact H.
   - discriminate.
+  - intro H. apply andb_true_iff in H. destruct H as [H1 H2]. rewrite H1. cbn [andb].
+    destruct c; [apply IH; exact H2 | exact H2].
 Qed.
 
 Lemma group_head_pending : forall r pending,
@@ -94,16 +161,17 @@ Proof.
   - destruct (group [] r). cbn. exists []. rewrite app_nil_r. reflexivity.
   - specialize (IH (pending ++ ws_trivia ws)). destruct (fst (group (pending ++ ws_trivia ws) r)) as [|[tr' t'] l]; [exact I|].
     destruct IH as [more ->]. exists (ws_trivia ws ++ more). rewrite app_assoc. reflexivity.
-  - apply IH.
+  - specialize (IH (pending ++ tr_of c)). destruct (fst (group (pending ++ tr_of c) r)) as [|[tr' t'] l]; [exact I|].
+    destruct IH as [more ->]. exists (tr_of c ++ more). rewrite app_assoc. reflexivity.
 Qed.
 
-Lemma head_sep : forall r pending, sepb true r = true ->
+Lemma head_sep : forall r, Forall piece_wf r -> forall pending, sepb true r = true ->
   match fst (group pending r) with
   | (tr', t') :: _ => tr' <> [] \/ wordlike t' = false
   | [] => True
   end.
 Proof.
-  induction r as [|p r IH]; intros pending H; [exact I|].
+  induction 1 as [|p r Hp Hr IH]; intros pending H; [exact I|].
   destruct p as [t|text|[|c ws]|c]; cbn [sepb andb negb] in H; cbn [group].
   - apply andb_true_iff in H. destruct H as [H _]. apply negb_true_iff in H.
     destruct (group [] r). cbn. right. exact H.
@@ -112,46 +180,76 @@ Proof.
   - pose proof (group_head_pending r (pending ++ ws_trivia (c :: ws))) as G.
     destruct (fst (group (pending ++ ws_trivia (c :: ws)) r)) as [|[tr' t'] l]; [exact I|].
     destruct G as [more ->]. left. destruct pending; discriminate.
-  - discriminate.
+  - apply andb_true_iff in H. destruct H as [_ H]. cbn [piece_wf] in Hp.
+    destruct c as [|c0 c'].
+    + assert (E : tr_of [] = []) by reflexivity. rewrite E, app_nil_r. apply IH. exact H.
+    + pose proof (tr_of_nonnil (c0 :: c') Hp ltac:(discriminate)) as Hne.
+      pose proof (group_head_pending r (pending ++ tr_of (c0 :: c'))) as G.
+      destruct (fst (group (pending ++ tr_of (c0 :: c')) r)) as [|[tr' t'] l]; [exact I|].
+      destruct G as [more ->]. left. intro E. apply app_eq_nil in E. destruct E as [E _].
+      apply app_eq_nil in E. destruct E as [_ E]. contradiction.
 Qed.
 
+(* what follows a pending run that ends with a line comment starts with a line break *)
+Definition open_ok (pending : trivia) (ps : list piece) : Prop :=
+  ends_lc pending = true -> match ps with [] => True | _ => starts_nl ps = true end.
+
 Lemma group_wf ps : Forall piece_wf ps -> forall pending,
-  sepb false ps = true -> blank_trivia pending ->
+  sepb false ps = true -> trivia_ok true pending = true -> open_ok pending ps ->
   lts_wf (fst (group pending ps)) (snd (group pending ps)).
 Proof.
-  induction 1 as [|p r Hp Hr IH]; intros pending Hs Hb.
-  - cbn. apply blank_trivia_ok. exact Hb.
-  - destruct p as [t|text|ws|c]; cbn [group piece_wf] in *.
+  induction 1 as [|p r Hp Hr IH]; intros pending Hs Hb Ho.
+  - cbn. exact Hb.
+  - assert (Hclosed : forall t, p = PT t \/ (exists x, p = PN x) -> trivia_ok false pending = true).
+    { intros t Hpt. apply trivia_ok_closed; [exact Hb|].
+      destruct (ends_lc pending) eqn:E; [|reflexivity]. specialize (Ho E).
+      destruct Hpt as [->|[x ->]]; cbn in Ho; discriminate. }
+    destruct p as [t|text|ws|c]; cbn [group piece_wf] in *.
     + cbn [sepb andb negb] in Hs.
-      pose proof (head_sep r [] ) as Hh.
+      pose proof (head_sep r Hr []) as Hh.
       assert (Hr' : sepb false r = true).
       { destruct (wordlike t); [apply sepb_mono|]; exact Hs. }
-      specialize (IH [] Hr' (Forall_nil _)).
+      specialize (IH [] Hr' eq_refl (fun E => ltac:(discriminate))).
       destruct (group [] r) as [l fin]. cbn [fst snd] in *. cbn [lts_wf].
-      split; [apply blank_trivia_ok; exact Hb|]. split; [exact Hp|]. split; [|exact IH].
+      split; [apply (Hclosed t); left; reflexivity|]. split; [exact Hp|]. split; [|exact IH].
       intro Hw. rewrite Hw in Hs. specialize (Hh Hs).
       destruct l as [|[tr' t'] l']; [exact I | exact Hh].
     + cbn [sepb andb negb] in Hs.
-      pose proof (head_sep r [] Hs) as Hh.
-      specialize (IH [] (sepb_mono r Hs) (Forall_nil _)).
+      pose proof (head_sep r Hr [] Hs) as Hh.
+      specialize (IH [] (sepb_mono r Hs) eq_refl (fun E => ltac:(discriminate))).
       destruct (group [] r) as [l fin]. cbn [fst snd] in *. cbn [lts_wf].
       destruct Hp as [Hp _].
-      split; [apply blank_trivia_ok; exact Hb|]. split; [exact Hp|]. split; [|exact IH].
+      split; [apply (Hclosed (TInt [])); right; eauto|]. split; [exact Hp|]. split; [|exact IH].
       intros _. destruct l as [|[tr' t'] l']; [exact I | exact Hh].
-    + apply IH.
-      * destruct ws; cbn [sepb] in Hs; exact Hs.
-      * apply blank_app; [exact Hb | apply blank_ws; exact Hp].
-    + contradiction.
+    + destruct ws as [|d ws'].
+      * cbn [ws_trivia map]. rewrite app_nil_r. apply IH; [exact Hs | exact Hb|].
+        intro E. specialize (Ho E). cbn in Ho. discriminate.
+      * apply IH; [exact Hs| |].
+        -- apply trivia_ok_app; [exact Hb | apply trivia_ok_ws; exact Hp|].
+           intro E. specialize (Ho E). cbn in Ho. exact Ho.
+        -- intro E. rewrite ends_lc_app in E by discriminate. rewrite ends_lc_ws in E. discriminate.
+    + cbn [sepb] in Hs. apply andb_true_iff in Hs. destruct Hs as [Hla Hs].
+      destruct (comment_ok_spec c Hp) as [_ Hok].
+      assert (Hnot : ends_lc pending = false).
+      { destruct (ends_lc pending) eqn:E; [|reflexivity]. specialize (Ho E). cbn in Ho. discriminate. }
+      apply IH.
+      * destruct c; exact Hs.
+      * apply trivia_ok_app; [exact Hb | exact Hok|]. rewrite Hnot. discriminate.
+      * intro E. destruct (tr_of c) as [|i0 t0] eqn:Et.
+        -- rewrite app_nil_r in E. congruence.
+        -- rewrite ends_lc_app in E by discriminate. rewrite E in Hla.
+           destruct r; [exact I | exact Hla].
 Qed.
 
 Definition pieces_ok (ps : list piece) : Prop := Forall piece_wf ps /\ sepb false ps = true.
 
-(* the text of admissible pieces lexes into exactly their tokens, white space as trivia *)
+(* the text of admissible pieces lexes into exactly their tokens, white space and comments as
+   trivia *)
 Theorem lex_pieces ps : pieces_ok ps -> lex (pieces_text ps) = Some (group [] ps).
 Proof.
   intros [Hwf Hs].
   pose proof (group_bytes ps Hwf []) as Hb. cbn [trivia_bytes map List.concat app] in Hb.
-  pose proof (group_wf ps Hwf [] Hs (Forall_nil _)) as Hl.
+  pose proof (group_wf ps Hwf [] Hs eq_refl (fun E => ltac:(discriminate))) as Hl.
   rewrite <- Hb. rewrite (lex_ltoks_bytes _ _ Hl). destruct (group [] ps); reflexivity.
 Qed.
 
@@ -281,7 +379,8 @@ Fixpoint ty_lex (t : ty) : bool :=
     match v with Some x => ty_lex x | None => true end
   end.
 
-Definition blank_comment (c : bytes) : bool := forallb go_space c.
+(* a recorded comment is blank (then it is not written) or reads back as trivia *)
+Definition cmt_lex (c : bytes) : bool := forallb go_space c || comment_ok c.
 
 Section LexOk.
   Variable fmt : N -> bytes.
@@ -299,29 +398,29 @@ Section LexOk.
   Definition field_lex (f : field) : bool :=
     word_ok (fd_name f) && ty_lex (fd_type f) &&
     match fd_default f with Some v => cv_lex v | None => true end &&
-    annos_lex (fd_annos f) && blank_comment (fd_comments f).
+    annos_lex (fd_annos f) && cmt_lex (fd_comments f).
   Definition struct_lex (s : struct_like) : bool :=
-    word_ok (sl_name s) && forallb field_lex (sl_fields s) && annos_lex (sl_annos s) && blank_comment (sl_comments s).
+    word_ok (sl_name s) && forallb field_lex (sl_fields s) && annos_lex (sl_annos s) && cmt_lex (sl_comments s).
   Definition function_lex (f : function) : bool :=
     word_ok (fn_name f) && ty_lex (fn_type f) && forallb field_lex (fn_args f) && forallb field_lex (fn_throws f) &&
-    annos_lex (fn_annos f) && blank_comment (fn_comments f).
+    annos_lex (fn_annos f) && cmt_lex (fn_comments f).
   Definition service_lex (s : service) : bool :=
     word_ok (sv_name s) && (match sv_extends s with [] => true | e => word_ok e end) &&
-    forallb function_lex (sv_functions s) && annos_lex (sv_annos s) && blank_comment (sv_comments s).
+    forallb function_lex (sv_functions s) && annos_lex (sv_annos s) && cmt_lex (sv_comments s).
   Definition enum_lex (e : enum) : bool :=
     word_ok (en_name e) &&
-    forallb (fun v => word_ok (ev_name v) && annos_lex (ev_annos v) && blank_comment (ev_comments v)) (en_values e) &&
-    annos_lex (en_annos e) && blank_comment (en_comments e).
+    forallb (fun v => word_ok (ev_name v) && annos_lex (ev_annos v) && cmt_lex (ev_comments v)) (en_values e) &&
+    annos_lex (en_annos e) && cmt_lex (en_comments e).
   Definition typedef_lex (t : typedef) : bool :=
-    ty_lex (td_type t) && word_ok (td_alias t) && annos_lex (td_annos t) && blank_comment (td_comments t).
+    ty_lex (td_type t) && word_ok (td_alias t) && annos_lex (td_annos t) && cmt_lex (td_comments t).
   Definition constant_lex (c : constant) : bool :=
     ty_lex (co_type c) && word_ok (co_name c) && cv_lex (co_value c) && annos_lex (co_annos c) &&
-    blank_comment (co_comments c).
+    cmt_lex (co_comments c).
   Definition namespace_lex (n : namespace) : bool :=
     (beqb (ns_language n) [p_star] || word_ok (ns_language n)) && word_ok (ns_name n) && annos_lex (ns_annos n).
 
   (* names are words of the grammar, literal values are in the domain of quoteLiteral,
-     double texts have a number shape, no comments are recorded *)
+     double texts have a number shape, recorded comments read back as trivia *)
   Definition lex_ok (a : file) : bool :=
     forallb (fun i => lit_ok (in_path i)) (f_includes a) && forallb lit_ok (f_cpp_includes a) &&
     forallb namespace_lex (f_namespaces a) && forallb typedef_lex (f_typedefs a) &&
@@ -396,12 +495,29 @@ End LexOk.
 Section Admissible.
   Variable fmt : N -> bytes.
 
-  Lemma comment_blank prefix c : blank_comment c = true -> comment_pieces prefix c = [].
-  Proof. unfold blank_comment, comment_pieces. intros ->. reflexivity. Qed.
+  Lemma adm_comment x c qs : comment_ok c = true -> adm false qs -> adm x (PC c :: nl :: qs).
+  Proof.
+    intros Hc [H1 H2]. split; [constructor; [exact Hc | constructor; [reflexivity | exact H1]]|].
+    intros rest Hr. cbn [app sepb nl starts_nl].
+    assert (E : is_nl x0a = true) by reflexivity. rewrite E.
+    destruct (ends_lc (tr_of c)); cbn [andb]; (destruct c; apply H2; exact Hr).
+  Qed.
+
+  Lemma comment_then prefix c : cmt_lex c = true -> (prefix = [] \/ prefix = [indent4]) ->
+    forall qs, adm false qs -> adm false (comment_pieces prefix c ++ qs).
+  Proof.
+    unfold cmt_lex, comment_pieces. intros H Hp qs Hq.
+    destruct (forallb go_space c); [exact Hq|]. cbn [orb] in H.
+    destruct Hp as [-> | ->]; cbn [app].
+    - apply adm_comment; assumption.
+    - apply adm_ws; [reflexivity|]. apply adm_comment; assumption.
+  Qed.
 
   Ltac norm := repeat rewrite <- app_assoc; cbn [app].
   Ltac sp1 := apply adm_ws; [reflexivity|]; norm.
-  Ltac blk := match goal with Hb : blank_comment _ = true |- _ => rewrite (comment_blank _ _ Hb) end.
+  Ltac blk := repeat rewrite <- app_assoc; cbn [app];
+    match goal with Hb : cmt_lex ?c = true |- adm false (comment_pieces _ ?c ++ _) =>
+      apply (comment_then _ c Hb); [first [left; reflexivity | right; reflexivity]|] end.
   Ltac pu := apply adm_punct; [reflexivity|]; norm.
 
   Lemma adm_true_of_false_start c ws ps : forallb is_space (c :: ws) = true -> adm false ps -> adm true (PW (c :: ws) :: ps).
@@ -561,7 +677,7 @@ Section Admissible.
   Qed.
 
   Lemma enum_values_then : forall l qs,
-    forallb (fun v => word_ok (ev_name v) && annos_lex (ev_annos v) && blank_comment (ev_comments v)) l = true ->
+    forallb (fun v => word_ok (ev_name v) && annos_lex (ev_annos v) && cmt_lex (ev_comments v)) l = true ->
     adm false qs -> adm false (enum_values_pieces l ++ qs).
   Proof.
     induction l as [|v r IH]; intros qs H Hq; [exact Hq|].
